@@ -379,7 +379,7 @@ func genKeyOps(r *rand.Rand, n int) []string {
 func genImplOps(r *rand.Rand, n int) []string { return genImplOpsX(r, n, false) }
 
 func genImplOpsX(r *rand.Rand, n int, withMalformed bool) []string {
-	var out []string
+	var out, extra []string // extra: appended after the rest, the other cases keep their positions
 	for i := 0; i < n; i++ {
 		alg := symAlgs[r.Intn(len(symAlgs))]
 		k := genSymKey(r, alg, r.Intn(5) != 0)
@@ -395,6 +395,27 @@ func genImplOpsX(r *rand.Rand, n int, withMalformed bool) []string {
 			bad := []string{"t:7369676e", "[ t:78 ]", "[ int:9 t:3130 ]", "int:9", "b:09", "[ f:9 ]", "[ [ int:9 ] ]", "{ int:1 int:9 }", "[ i64:4294967296 ]", "T"}
 			out = append(out, "impl.malformed "+symKeyTok(alg, randBytes(r, keySizeOf(alg)), "int:4", bad[r.Intn(len(bad))]))
 		}
+		if i%10 == 3 {
+			// fixed slots, every symmetric algorithm in turn: a key whose key_ops is in the form a decoder leaves it in
+			// ([]any of uint64) or a caller's []any of int, naming both operations of the family; narrowed to one of them,
+			// in each representation, after the implementation was obtained — the gate is evaluated at every call
+			r2 := rand.New(rand.NewSource(int64(i)*104729 + 7))
+			a2 := symAlgs[(i/10)%len(symAlgs)]
+			mac2 := isIn(a2, hmacAlgs) || isIn(a2, aesmacAlgs)
+			o1, o2 := 3, 4
+			if mac2 {
+				o1, o2 = 9, 10
+			}
+			rot := (i / 10 / len(symAlgs)) % 8
+			init := []string{fmt.Sprintf("[ u64:%d u64:%d ]", o1, o2), fmt.Sprintf("[ int:%d int:%d ]", o2, o1)}[rot%2]
+			aft := []string{fmt.Sprintf("[ u64:%d ]", o1), fmt.Sprintf("[ u64:%d ]", o2), fmt.Sprintf("ops[ %d ]", o1), fmt.Sprintf("ints[ %d ]", o2)}[(rot/2)%4]
+			k2 := symKeyTok(a2, randBytes(r2, keySizeOf(a2)), "int:4", init)
+			if mac2 {
+				extra = append(extra, fmt.Sprintf("impl.mac %s %s | %s", hx(randBytes(r2, 1+r2.Intn(40))), k2, aft))
+			} else {
+				extra = append(extra, fmt.Sprintf("impl.aead %s %s %s %s | %s", hx(randBytes(r2, nonceSizeOf(a2))), hx(randBytes(r2, r2.Intn(40))), hx(randBytes(r2, r2.Intn(20))), k2, aft))
+			}
+		}
 		if isMac {
 			out = append(out, fmt.Sprintf("impl.mac %s %s | %s", hx(randBytes(r, 1+r.Intn(40))), k, after))
 		} else {
@@ -406,5 +427,5 @@ func genImplOpsX(r *rand.Rand, n int, withMalformed bool) []string {
 		}
 	}
 	sort.SliceStable(out, func(i, j int) bool { return false })
-	return out
+	return append(out, extra...)
 }
